@@ -8,7 +8,7 @@ def jobs(tier):
         dict(name='n3e2-options', harness=H, entry='main_c04',
              defines=dict(NN=3, NE=2, NS=0, NM=0, TP_HI=0, SP_HI=1, MAXS=3), timeout=900, require_tags={'end': 1, 'accept': 1}),
         dict(name='fixed-table', harness=H, entry='main_c04',
-             defines=dict(NN=4, NE=4, NS=1, NM=1, FIXED_TABLE=1, MAXS=3, DEFAULT_OPTIONS_ONLY=1), timeout=900,
+             defines=dict(NN=4, NE=4, NS=1, NM=1, FIXED_TABLE=1, MAXS=3, DEFAULT_OPTIONS_ONLY=1, ROOTS_PASS=1), timeout=900,
              require_tags={'end': 1, 'accept': 1}),
     ]
     if tier == 'quick':
@@ -28,8 +28,8 @@ BOUNDS = {
              'list of 1-3 distinct nodes (non-samples allowed) x options {default filters, keep_unary, keep_input_roots, '
              'filter_nodes=False + update_sample_flags=False}: ancestry at every position class, node_map, flags, idempotence; '
              '(b) one fixed 4-node 4-edge 5-tree sequence (internal sample, gap) with a site at a symbolic position, a '
-             'mutation on an enumerated node and every ordered list of 1-3 nodes under the default options: also genotypes '
-             'and site filtering',
+             'mutation on an enumerated node and every ordered list of 1-3 nodes under the default options and keep_input_roots: also genotypes, '
+             'site filtering and (known mutation times) validity of the mutation placement',
     'thorough': 'plus all sample/time profiles and lists of 3 nodes on the 3-node classes, and 4-node 3-edge classes under the '
                 'default options (time-boxed)',
 }
